@@ -911,6 +911,12 @@ class NF:
 
     def _libcall(self, op: str, args, kws, e) -> Poly:
         short = op.split(".")[-1]
+        if op == "sum" and not kws and 1 <= len(args) <= 2 and args[0].elems is not None:
+            # builtin sum over a display: the sum of its elements
+            tot = args[1] if len(args) == 2 else Poly.const(0)
+            for el in args[0].elems:
+                tot = tot + el
+            return tot
         if short == "arange" and not kws and len(args) in (2, 3):
             # arange(s, e, k) == s + k * arange((e - s) / k): one normal form for shifted / reversed progressions
             k_ = args[2] if len(args) == 3 else Poly.const(1)
